@@ -92,7 +92,10 @@ def _plan(draw, max_len):
         args["ddof"] = draw(st.sampled_from([0, 1]))
     # further helpers on the same column as later summaries of the same aggregate call
     extra = draw(st.lists(st.sampled_from(["first", "last", "nth1", "count", "min", "max"]), max_size=2, unique=True))
-    return {"kind": kind, "helper": h, "vals": vals, "groups": groups, "args": args, "extra": extra}
+    plan = {"kind": kind, "helper": h, "vals": vals, "groups": groups, "args": args, "extra": extra}
+    if draw(st.integers(0, 3)) == 0:
+        plan["reuse"] = draw(st.sampled_from([1, 1, 2]))
+    return plan
 
 
 def strategy(tier):
@@ -264,7 +267,18 @@ def check(plan, ctx):
         ex_args = {"first": ("first", {}), "last": ("last", {}), "nth1": ("nth", {"index": 1}), "count": ("count", {}),
                    "min": ("min", {}), "max": ("max", {})}
         later = {f"z{j}": extras[e]() for j, e in enumerate(plan.get("extra", []))}
-        out = ctx.call(f"aggregate(y={h}('x'), ...)", lambda: data.group_by("g").aggregate(y=_call_grp(h, args), **later))
+        fobj = _call_grp(h, args)
+        if plan.get("reuse"):
+            # history: the very same helper object summarised another frame before (one without missing values, or
+            # one with nothing but missing values): nothing it learnt there may carry over
+            nn = [v for v in vals if not _isna(kind, v)]
+            fill = (nn[0] if nn else POOLS[kind][-1]) if plan["reuse"] == 1 else {"f": gen.NAN, "s": ""}.get(kind)
+            if plan["reuse"] == 1 or kind in ("f", "d", "t", "s", "td"):
+                other = [fill if (_isna(kind, v) or plan["reuse"] == 2) else v for v in vals]
+                data0 = di.DataFrame({"g": np.array(groups, dtype=np.int64).view(di.DataFrameColumn), "x": build.column(kind, other)})
+                ctx.call("aggregate on another frame with the same helper object", lambda: data0.group_by("g").aggregate(y=fobj))
+                ctx.cls("helper_object_reused_across_frames")
+        out = ctx.call(f"aggregate(y={h}('x'), ...)", lambda: data.group_by("g").aggregate(y=fobj, **later))
         for j, e in enumerate(plan.get("extra", [])):
             if f"z{j}" not in later:
                 continue
